@@ -629,6 +629,10 @@ def attribute(case, o, kind, sym, parser_y):
     for s, nm, frames, is_tok in reversed(named):
         if frames[0][0] not in fns:
             fns.append(frames[0][0])
+    if root[1] == "scanner-string-buffer":
+        # lost by the <<EOF>> rule of the scanner, whatever the later phases say about the text in front of the literal (an
+        # input that ends inside a literal is not diagnosed, the compile may even succeed): one mechanism, one key
+        oc = "parse-error"
     out = [("leak:%s:%s" % (oc, root[1]),
             ["root block %d: " % root[0][0] + " <- ".join(describe(root[2])[:5]),
              "allocating functions of leaked blocks: " + ", ".join(fns[:12])])]
@@ -749,7 +753,7 @@ def error_path_matrix(cases, obs):
         o = obs.get(c.id)
         verdict = judge(c, o)[0]
         oc = outcome_class(o) if o is not None else "no-record"
-        reached = oc == INTENDED[m["phase"]]
+        reached = oc == INTENDED[m["phase"]] or (m["phase"] == "typecheck" and m["context"].startswith("enum-") and oc == "reducer-error")
         ph = by_phase.setdefault(m["phase"], {"programs": 0, "failed_in_the_intended_phase": 0, "monitor_verdicts": {}, "outcomes": {}})
         ph["programs"] += 1
         ph["failed_in_the_intended_phase"] += 1 if reached else 0
